@@ -3,8 +3,8 @@
    Only statements, each closed by `exact <lemma>`, its assumptions printed, and Examples
    showing that the hypotheses are met by non-trivial values. *)
 From Pybtex Require Import Base.Prelude Base.PyChar Base.PyStr
-  Model.Plugins Model.IO Model.EntryPoints Model.YamlWriter
-  Proofs.Plugins Proofs.IO Proofs.EntryPoints Proofs.YamlWriter Proofs.Utf8 Proofs.Utf16.
+  Model.Plugins Model.IO Model.EntryPoints Model.YamlWriter Model.RealPlugins
+  Proofs.Plugins Proofs.IO Proofs.EntryPoints Proofs.YamlWriter Proofs.Utf8 Proofs.Utf16 Proofs.RealPlugins.
 
 (* ===== the plug-in registry (pybtex/plugin/__init__.py), for every state of
    _RUNTIME_PLUGINS, every table of installed entry points and every _DEFAULT_PLUGINS ===== *)
@@ -287,6 +287,67 @@ Theorem db_entry_points_agree : forall db plugins r inst df cd empty s b fmt,
 Proof. exact Proofs.EntryPoints.db_entry_points_agree. Qed.
 Print Assumptions db_entry_points_agree.
 
+(* ===== the same, stated per shipped plug-in (Model/RealPlugins.v: stream kind and overridden
+   methods of the bibtex / yaml / bibtexml readers and writers; their bodies are arbitrary) ===== *)
+
+(* BibTeX reader (text plug-in; parse_string overridden; parse_stream = parse_string o read) *)
+Theorem bibtex_entry_points_agree : forall db body cd s b d,
+  enc cd s = Some b -> dec cd b = Some s -> fdec cd b = FText s ->
+  bibtex_parse_bytes db body cd b d = bibtex_parse_string db body s d /\
+  bibtex_parse_file db body cd (FStream (SText s)) d = bibtex_parse_string db body s d /\
+  bibtex_parse_file db body cd (FOpened b) d = bibtex_parse_string db body (universal_newlines s) d.
+Proof. exact Proofs.RealPlugins.bibtex_entry_points_agree. Qed.
+Print Assumptions bibtex_entry_points_agree.
+
+Theorem bibtex_utf8_entry_points_agree : forall db body s b d,
+  enc codec_utf8 s = Some b ->
+  bibtex_parse_bytes db body codec_utf8 b d = bibtex_parse_string db body s d /\
+  bibtex_parse_file db body codec_utf8 (FStream (SText s)) d = bibtex_parse_string db body s d /\
+  bibtex_parse_file db body codec_utf8 (FOpened b) d = bibtex_parse_string db body (universal_newlines s) d.
+Proof. exact Proofs.RealPlugins.bibtex_utf8_entry_points_agree. Qed.
+Print Assumptions bibtex_utf8_entry_points_agree.
+
+(* YAML reader (bytes plug-in): the same bytes reach yaml.load through every entry point *)
+Theorem yaml_reader_entry_points_agree : forall db body cd s b d,
+  enc cd s = Some b ->
+  yaml_parse_bytes db body cd b d = yaml_parse_string db body cd s d /\
+  yaml_parse_file db body cd (FStream (SBytes b)) d = yaml_parse_string db body cd s d /\
+  yaml_parse_file db body cd (FOpened b) d = yaml_parse_string db body cd s d.
+Proof. exact Proofs.RealPlugins.yaml_reader_entry_points_agree. Qed.
+Print Assumptions yaml_reader_entry_points_agree.
+
+(* BibTeXML reader (parse_bytes / parse_string / parse_stream overridden), given that
+   ElementTree parses a binary stream as it parses its content *)
+Theorem bibtexml_entry_points_agree : forall db tree et_fromstring et_parse parse_tree cd s b d,
+  (forall x, et_parse (SBytes x) = et_fromstring x) ->
+  enc cd s = Some b ->
+  xml_parse_string db tree et_fromstring parse_tree cd s d = xml_parse_bytes db tree et_fromstring parse_tree b d /\
+  xml_parse_file db tree et_parse parse_tree cd (FStream (SBytes b)) d = xml_parse_bytes db tree et_fromstring parse_tree b d /\
+  xml_parse_file db tree et_parse parse_tree cd (FOpened b) d = xml_parse_bytes db tree et_fromstring parse_tree b d.
+Proof. exact Proofs.RealPlugins.bibtexml_entry_points_agree. Qed.
+Print Assumptions bibtexml_entry_points_agree.
+
+(* BibTeX writer (text plug-in) *)
+Theorem bibtex_to_bytes_is_encoded_to_string : forall wd chunks cd d t,
+  bibtex_to_string wd chunks cd d = Ok t ->
+  bibtex_to_bytes wd chunks cd d = match enc cd t with Some b => Ok b | None => Crash end.
+Proof. exact Proofs.RealPlugins.bibtex_to_bytes_is_encoded_to_string. Qed.
+Print Assumptions bibtex_to_bytes_is_encoded_to_string.
+
+(* BibTeXML writer: for a document every character of which the encoding can represent,
+   to_string is the document (stripped), to_bytes is the XML declaration (naming self.encoding)
+   followed by the document, encoded, and a named file receives exactly those bytes *)
+Theorem bibtexml_to_bytes : forall wd body cd encname d t b x,
+  body d = Ok t ->
+  charref_replace cd (xml_decl encname ++ t) = xml_decl encname ++ t ->
+  enc cd (xml_decl encname ++ t) = Some b ->
+  enc codec_utf8 t = Some x ->
+  xml_to_string wd body d = Ok (strip t) /\
+  xml_to_bytes wd body cd encname d = Ok b /\
+  xml_write_file wd body cd encname d WOpened = Ok (None, Some (SBytes b)).
+Proof. exact Proofs.RealPlugins.bibtexml_to_bytes. Qed.
+Print Assumptions bibtexml_to_bytes.
+
 (* ===== non-vacuity ===== *)
 Definition ex_g : str := g_input.
 Definition ex_df : dflts := [(g_input, s2l "bibtex")].
@@ -347,3 +408,15 @@ Example codec_example :
   /\ parse_file (list stream) (fun s d => Ok (d ++ [s])) codec_utf8 true (FOpened [97; 13; 10; 98]%N) []
      = Ok [SText [97; 10; 98]%N].
 Proof. vm_compute. repeat split. Qed.
+
+(* the hypotheses of bibtexml_to_bytes hold of a Latin-1 document; an unencodable character is
+   replaced by a character reference (so the hypothesis is not vacuous either way) *)
+Example bibtexml_example :
+  let t := [60; 97; 62; 233; 10]%N in
+  charref_replace codec_latin1 (xml_decl (s2l "latin-1") ++ t) = xml_decl (s2l "latin-1") ++ t
+  /\ (exists b, enc codec_latin1 (xml_decl (s2l "latin-1") ++ t) = Some b)
+  /\ (exists x, enc codec_utf8 t = Some x)
+  /\ charref_replace codec_latin1 [8364]%N = s2l "&#8364;"
+  /\ xml_to_bytes str (fun d => Ok d) codec_ascii (s2l "ascii") [233]%N
+     = Ok (s2l "<?xml version=""1.0"" encoding=""ascii""?>" ++ [10%N] ++ s2l "&#233;").
+Proof. vm_compute. repeat split; eexists; reflexivity. Qed.
